@@ -228,6 +228,10 @@ pub fn exec_case(case: &Value, want: &BTreeSet<String>) -> RunOutcome {
     let workers = case["workers"].as_u64().unwrap_or(1) as usize;
     // process history: another instance solved before this one on the same thread and pool
     let prelude: Option<Value> = case.get("prelude").filter(|p| p.is_object()).cloned();
+    // with a prelude everything runs on one pool thread: std's per-thread hash-key counter advances
+    // with every map the prelude creates, and in a larger pool the thread on which that happens is
+    // not the simulator's choice
+    let workers = if prelude.is_some() { 1 } else { workers };
     let inst = match RefInstance::parse(&instance) {
         Ok(i) => i,
         Err(e) => {
